@@ -388,6 +388,15 @@ func localCalls(w *World, ri int, alpha string) []pt.Action {
 					add(pt.Action{Op: "ddel", T: t, K: k})
 				}
 			}
+			if t == "" && strings.Contains(alpha, "reserved") {
+				// member names that the server itself uses in the document it keeps in the user's collection
+				for _, k := range []string{"_id", "_orda_ver_"} {
+					add(pt.Action{Op: "dput", T: t, K: k, V: "p"})
+					if _, ok := m[k]; ok {
+						add(pt.Action{Op: "ddel", T: t, K: k})
+					}
+				}
+			}
 			if t == "" && strings.Contains(alpha, "emptykey") {
 				// the empty string is a legal member name
 				add(pt.Action{Op: "dput", T: t, K: "", V: "p"})
